@@ -347,6 +347,8 @@ class Evaluator:
                 if self.truth(e[0], loc):
                     exc = e[2]
                     name = exc[1] if exc[0] == "call" else (exc[1] if exc[0] == "v" else "?")
+                    if name != "ValueError" and self.sx.ctx.prog.exc_is_a(name, "ValueError"):
+                        name = "ValueError"         # a ValueError of the repository's own (class MalformedGame(ValueError))
                     return ("raise", name, None)
             elif kind == "loop":
                 if not self.truth(e[0], loc):
